@@ -401,7 +401,8 @@ def wrap_cases(chk, rng, searching):
     2^8-1, 2^16-1, 2^32-1, 2^40.  A short list in the quick tier (2^8 and 2^16), a longer one (multiples, 2^17,
     2^20) in the thorough tier and whenever a proof / the tie broke."""
     full = chk.tier != "quick" or searching
-    bases = [256, 65536] if not full else [256, 512, 768, 65536, 65536, 131072, 196608, 1 << 20]
+    bases = [256, 65536] if not full else [256, 512, 65536, 131072] if chk.tier == "quick" else \
+        [256, 512, 768, 65536, 65536, 131072, 196608, 1 << 20]
     vals = [-100.0, 100.0, -3.0, 3.0, 0.25, None]
     out = []
 
@@ -412,7 +413,7 @@ def wrap_cases(chk, rng, searching):
         return f"{len(gs)}" + "".join(f" {c if isinstance(c, int) else tok(c)} {tok(x)} {k}" for c, x, k in gs)
 
     for base in bases:
-        reps = 1 if not full else 2
+        reps = 2 if chk.tier != "quick" else 1
         for _ in range(reps):
             j = rng.below(4)
             m = j + 1 + rng.below(40)
@@ -464,6 +465,20 @@ def wrap_cases(chk, rng, searching):
                 a, b = (big, m) if rng.chance(0.5) else (m, big)
                 out.append(f"wrap {kind} 1 0 {d0()} " + grp([(x, x, a), (x + rng.choice([1.0, -2.0, 0.5]), x, b),
                                                            (x, None, rng.below(3))]))
+    if chk.tier != "quick":
+        # 2^24 + j WRONG answers: a `float` accumulator stops counting at 2^24 (9 GB under ASan: only with memory to spare)
+        avail = 0
+        try:
+            for ln in open("/proc/meminfo"):
+                if ln.startswith("MemAvailable:"):
+                    avail = int(ln.split()[1]) // (1 << 20)
+        except OSError:
+            pass
+        if avail >= 24:
+            j = rng.below(4)
+            out.append(f"wrap bin 1 2 0 " + grp([(0, 100.0, (1 << 24) + j), (1, 100.0, 1 + rng.below(40))]))
+        else:
+            chk.count("wrap:2^24_case_skipped_for_lack_of_memory")
     return out
 
 
